@@ -346,7 +346,14 @@ def converted_call(f, args, kwargs, caller_fn_scope=None, options=None):
       # TODO(mdan): Recurse into converted_call to simplify other verifications.
       # This should be handled in the same way as partials.
       target_entity = f.__class__.__call__
-      effective_args = (f,) + args
+      if inspect.ismethod(target_entity):
+        # __call__ declared as a classmethod: it is already bound to the class.
+        effective_args = (target_entity.__self__,) + args
+      elif isinstance(
+          inspect.getattr_static(f.__class__, '__call__', None), staticmethod):
+        effective_args = args
+      else:
+        effective_args = (f,) + args
 
     else:
       target_entity = f
